@@ -672,11 +672,182 @@ Theorem list_history_strs : forall ops rops l, Forall2 (op_rel string VStr) ops 
       map (emb_obs string VStr) (snd (l_run string String.eqb ops l))).
 Proof. intros. apply (list_history_refines string VStr String.eqb (fun a b => eq_refl)). assumption. Qed.
 
-(* key injectivity for tuples of ints (the key type of tests/sylt_std/dict_simple.sy): stated, not proved
-   here; exercised by the correspondence and the oracle only *)
-Definition key_inj_int_tuple_statement : Prop :=
-  forall zs zs' : list Z, length zs = length zs' ->
+(* ---- tostring is injective on (nested) tuples of ints (the key type of tests/sylt_std/dict_simple.sy) ----
+   The printed form "(a, (b, c))" is uniquely readable: decimal numerals contain only the characters
+   "-0123456789", and what follows a component (", " / "," / ")") starts with another character. *)
+
+Definition dec_char (c : ascii) : bool :=
+  let n := N_of_ascii c in (((48 <=? n)%N && (n <=? 57)%N) || (n =? 45)%N).
+
+Lemma looks_like_int_cons : forall c s, looks_like_int (String c s) = dec_char c && looks_like_int s.
+Proof. reflexivity. Qed.
+
+(* what may follow a numeral: nothing, or a character that cannot be part of one *)
+Definition ok_rest (r : string) : Prop :=
+  match r with EmptyString => True | String c _ => dec_char c = false end.
+
+Lemma dec_prefix_unique : forall a a' r r', looks_like_int a = true -> looks_like_int a' = true ->
+  ok_rest r -> ok_rest r' -> (a ++ r = a' ++ r')%string -> a = a' /\ r = r'.
+Proof.
+  induction a as [|c a IH]; intros [|c' a'] r r' Ha Ha' Hr Hr' E; simpl in E.
+  - auto.
+  - subst r. simpl in Hr. rewrite looks_like_int_cons in Ha'. apply andb_true_iff in Ha'. destruct Ha'. congruence.
+  - subst r'. simpl in Hr'. rewrite looks_like_int_cons in Ha. apply andb_true_iff in Ha. destruct Ha. congruence.
+  - inversion E; subst c'. rewrite looks_like_int_cons in Ha, Ha'.
+    apply andb_true_iff in Ha. apply andb_true_iff in Ha'.
+    destruct (IH a' r r') as [-> ->]; tauto.
+Qed.
+
+Lemma n_to_dec_go_dec : forall fuel n acc, looks_like_int acc = true -> looks_like_int (n_to_dec_go fuel n acc) = true.
+Proof.
+  induction fuel as [|f IH]; intros n acc H; [exact H|]. cbn [n_to_dec_go].
+  assert (R : (snd (N.div_eucl n 10) < 10)%N).
+  { change (snd (N.div_eucl n 10)) with (n mod 10)%N. apply N.mod_lt. discriminate. }
+  destruct (N.div_eucl n 10) as [q r]. simpl in R.
+  assert (D : looks_like_int (String (ascii_of_N (48 + r)) acc) = true).
+  { rewrite looks_like_int_cons, H, andb_true_r. unfold dec_char. rewrite N_ascii_embedding by lia.
+    apply orb_true_iff. left. apply andb_true_iff. split; apply N.leb_le; lia. }
+  destruct (q =? 0)%N; [exact D | apply IH; exact D].
+Qed.
+
+Lemma z_to_dec_dec : forall z, looks_like_int (z_to_dec z) = true.
+Proof.
+  intros [|p|p]; simpl.
+  - reflexivity.
+  - apply n_to_dec_go_dec. reflexivity.
+  - apply n_to_dec_go_dec. reflexivity.
+Qed.
+
+Lemma string_app_nil_r : forall a : string, (a ++ "")%string = a.
+Proof. induction a; simpl; [reflexivity | rewrite IHa; reflexivity]. Qed.
+
+Lemma string_app_inv_head : forall a r r' : string, (a ++ r = a ++ r')%string -> r = r'.
+Proof. induction a; simpl; intros r r' H; [exact H | inversion H; auto]. Qed.
+
+Lemma tostring_tuple : forall vs,
+  rt_tostring (VTuple vs)
+  = ("(" ++ join ", " (map rt_tostring vs) ++ (match vs with [_] => "," | _ => "" end) ++ ")")%string.
+Proof. reflexivity. Qed.
+
+(* the types: int, and (nested) tuples of them *)
+Fixpoint int_tuple_ty (t : ty) : bool :=
+  match t with
+  | TInt => true
+  | TTuple ts => forallb int_tuple_ty ts
+  | _ => false
+  end.
+
+(* the printed form of a value of type t, followed by anything that cannot continue a numeral, determines the value *)
+Definition inj_at (t : ty) : Prop :=
+  forall a b r r', vty t a -> vty t b -> ok_rest r -> ok_rest r' ->
+  (rt_tostring a ++ r = rt_tostring b ++ r')%string -> a = b /\ r = r'.
+
+Lemma join_inj : forall ts, Forall inj_at ts -> ts <> [] ->
+  forall xs ys r r', all2 vty ts xs -> all2 vty ts ys -> ok_rest r -> ok_rest r' ->
+  (join ", " (map rt_tostring xs) ++ r = join ", " (map rt_tostring ys) ++ r')%string -> xs = ys /\ r = r'.
+Proof.
+  induction 1 as [|t ts Ht Hts IH]; intros NE; [congruence|].
+  intros [|x xs] [|y ys] r r'; simpl; try tauto.
+  intros [Tx Txs] [Ty Tys] Hr Hr' E.
+  destruct ts as [|t2 ts'].
+  - destruct xs; [|contradiction]. destruct ys; [|contradiction]. simpl in E.
+    destruct (Ht x y r r' Tx Ty Hr Hr' E) as [-> ->]. auto.
+  - destruct xs as [|x2 xs]; [contradiction|]. destruct ys as [|y2 ys]; [contradiction|].
+    cbn [map join] in E. rewrite !string_app_assoc in E. cbn [append] in E.
+    match type of E with
+    | (_ ++ String "," (String " " ?R1) = _ ++ String "," (String " " ?R2))%string =>
+        destruct (Ht x y _ _ Tx Ty (eq_refl : ok_rest (String "," (String " " R1)))
+                    (eq_refl : ok_rest (String "," (String " " R2))) E) as [-> E2]
+    end.
+    inversion E2 as [E3]. change (join ", " (rt_tostring x2 :: map rt_tostring xs))
+      with (join ", " (map rt_tostring (x2 :: xs))) in E3.
+    change (join ", " (rt_tostring y2 :: map rt_tostring ys)) with (join ", " (map rt_tostring (y2 :: ys))) in E3.
+    destruct (IH ltac:(discriminate) (x2 :: xs) (y2 :: ys) r r' Txs Tys Hr Hr' E3) as [-> ->]. auto.
+Qed.
+
+Theorem tostring_inj_int_tuple_at : forall t, int_tuple_ty t = true -> inj_at t.
+Proof.
+  induction t using ty_ind'; simpl; try discriminate; intros Hi a b r r' Ha Hb Hr Hr' E.
+  - destruct Ha as [x ->], Hb as [y ->]. cbn [rt_tostring] in E.
+    destruct (dec_prefix_unique _ _ _ _ (z_to_dec_dec x) (z_to_dec_dec y) Hr Hr' E) as [E1 ->].
+    apply z_to_dec_inj in E1. subst. auto.
+  - match goal with H0 : Forall _ ?l |- _ => rename l into tys end.
+    destruct a; try contradiction. destruct b; try contradiction. rename vs into xs, vs0 into ys.
+    rewrite !tostring_tuple in E. cbn [append] in E. inversion E as [E1]. clear E.
+    rewrite !string_app_assoc in E1.
+    assert (HI : Forall inj_at tys).
+    { rewrite forallb_forall in Hi. rewrite Forall_forall in *. auto. }
+    destruct tys as [|t tys].
+    + destruct xs; [|contradiction]. destruct ys; [|contradiction]. simpl in E1. inversion E1. auto.
+    + assert (L : forall (zs : list value), all2 vty (t :: tys) zs -> forall q,
+                 ok_rest ((match zs with [_] => "," | _ => "" end) ++ ")" ++ q)%string).
+      { intros [|z [|z2 zs]] _ q; reflexivity. }
+      destruct (join_inj (t :: tys) HI ltac:(discriminate) xs ys _ _ Ha Hb (L xs Ha r) (L ys Hb r') E1) as [-> E2].
+      apply string_app_inv_head in E2. inversion E2. auto.
+Qed.
+
+Theorem tostring_inj_int_tuple : forall t a b, int_tuple_ty t = true -> vty t a -> vty t b ->
+  rt_tostring a = rt_tostring b -> a = b.
+Proof.
+  intros t a b Hi Ha Hb E.
+  destruct (tostring_inj_int_tuple_at t Hi a b EmptyString EmptyString Ha Hb I I) as [-> _]; [|reflexivity].
+  rewrite !string_app_nil_r. exact E.
+Qed.
+
+(* flat tuples of ints of one length, as a statement about lists *)
+Lemma map_vint_inj : forall zs zs', map vint zs = map vint zs' -> zs = zs'.
+Proof.
+  induction zs as [|z zs IH]; intros [|z' zs'] H; simpl in H; try discriminate; [reflexivity|].
+  inversion H. f_equal. apply IH. assumption.
+Qed.
+
+Lemma vty_int_list : forall zs, all2 vty (repeat TInt (length zs)) (map vint zs).
+Proof. induction zs; simpl; [exact I | split; [eexists; reflexivity | exact IHzs]]. Qed.
+
+Lemma int_tuple_ty_repeat : forall n, forallb int_tuple_ty (repeat TInt n) = true.
+Proof. induction n; simpl; auto. Qed.
+
+Theorem key_inj_int_tuple : forall zs zs' : list Z, length zs = length zs' ->
   rt_tostring (VTuple (map vint zs)) = rt_tostring (VTuple (map vint zs')) -> zs = zs'.
+Proof.
+  intros zs zs' L E. apply map_vint_inj.
+  assert (X : VTuple (map vint zs) = VTuple (map vint zs')).
+  { apply (tostring_inj_int_tuple (TTuple (repeat TInt (length zs)))); try assumption.
+    - apply int_tuple_ty_repeat.
+    - apply vty_int_list.
+    - rewrite L. apply vty_int_list. }
+  inversion X. reflexivity.
+Qed.
+
+(* (int, int) as a key type *)
+Definition emb_zz (p : Z * Z) : value := VTuple [vint (fst p); vint (snd p)].
+Definition zz_eqb (p q : Z * Z) : bool := Z.eqb (fst p) (fst q) && Z.eqb (snd p) (snd q).
+
+Lemma zz_eqb_eq : forall p q, zz_eqb p q = true <-> p = q.
+Proof.
+  intros [a b] [c d]. unfold zz_eqb. simpl. rewrite andb_true_iff, !Z.eqb_eq.
+  split; [intros [-> ->]; reflexivity | intros H; inversion H; auto].
+Qed.
+
+Lemma zz_key_inj : forall p q, rt_tostring (emb_zz p) = rt_tostring (emb_zz q) -> p = q.
+Proof.
+  intros [a b] [c d] E.
+  assert (X : emb_zz (a, b) = emb_zz (c, d)).
+  { apply (tostring_inj_int_tuple (TTuple [TInt; TInt])); try assumption; try reflexivity;
+      simpl; repeat split; eexists; reflexivity. }
+  inversion X. reflexivity.
+Qed.
+
+Theorem dict_history_int_tuple_keys : forall (V : Type) (embV : V -> value) ops m,
+  rt_drun (Z * Z) V emb_zz embV ops (rep_dict (Z * Z) V emb_zz embV m) =
+  Ok (rep_dict (Z * Z) V emb_zz embV (fst (d_run (Z * Z) V zz_eqb ops m)),
+      map (emb_dobs V embV) (snd (d_run (Z * Z) V zz_eqb ops m))).
+Proof. intros. apply (dict_history_refines (Z * Z) V emb_zz embV zz_eqb zz_eqb_eq zz_key_inj). Qed.
+
+Theorem set_history_int_tuple_keys : forall ops s,
+  rt_srun (Z * Z) emb_zz ops (rep_set (Z * Z) emb_zz s) =
+  Ok (rep_set (Z * Z) emb_zz (fst (s_run (Z * Z) zz_eqb ops s)), map emb_sobs (snd (s_run (Z * Z) zz_eqb ops s))).
+Proof. intros. apply (set_history_refines (Z * Z) emb_zz zz_eqb zz_eqb_eq zz_key_inj). Qed.
 
 (* ------------------------------------------------------------------------------------------------ *)
 (* values made by the library vs the same values written in source                                   *)
